@@ -27,6 +27,9 @@ type RoutineContainer struct {
 	routine *runningRoutine
 	// retryBo is the retry backoff if retrying is enabled.
 	retryBo cbackoff.BackOff
+	// lastExitedCh is the exited channel of the most recently started instance.
+	// it may belong to a routine that has since been removed with SetRoutine(nil).
+	lastExitedCh <-chan struct{}
 }
 
 // NewRoutineContainer constructs a new RoutineContainer.
@@ -276,7 +279,12 @@ func (r *runningRoutine) start(ctx context.Context, waitCh <-chan struct{}, forc
 		return
 	}
 	r.stop()
+	if waitCh == nil {
+		// always wait for the most recently started instance to exit.
+		waitCh = r.r.lastExitedCh
+	}
 	exitedCh := make(chan struct{})
+	r.r.lastExitedCh = exitedCh
 	r.err = nil
 	r.success, r.exited = false, false
 	r.exitedCh = exitedCh
